@@ -1,13 +1,19 @@
 package xlate
 
-// The translator proper.  Fragment: parameters / locals of integer, bool, time.Time (an Int of nanoseconds) and slice
-// type (a List), struct parameters flattened to the fields that are read, package-level variables as extra
-// parameters; + - * / % << >> & | ^ with the wrap of the declared width, comparisons, && || !, conversions, len,
-// min, max, indexing and slicing (panic = none), if / else, early return, counting `for` loops and
-// `for _, x := range xs` (each becomes a structurally recursive function that contains the rest of the function),
-// calls to other translatable functions (translated first).  A function that can panic returns `Option T`.
-// Statements are translated in continuation-passing style: the code after an `if` is placed under both branches,
-// so no tuples or join points appear in the output.  Anything else is refused with an error - never guessed.
+// The translator proper (continued in xlate2.go: conditions that can panic, writes to slices, loops, function
+// literals, sort.Search, LittleEndian; xlate3.go: struct values, accessors, oracles).  Fragment: parameters / locals
+// of integer, bool, time.Time (an Int of nanoseconds) and slice type (a List); struct parameters flattened to the
+// fields that are read; struct locals built by composite literals kept field by field, struct results returned as
+// tuples, any other struct value opaque (type variable + accessor parameters); package-level variables, callbacks
+// `func(int..) bool|int` and the calls named in Unit.Oracles as extra parameters; + - * / % << >> & | ^ with the wrap
+// of the declared width, comparisons, && || ! (a right operand that can panic is evaluated only when Go evaluates it),
+// conversions, len, min, max, make, indexing and slicing (panic = none), xs[i] = v and PutUintN (the written slice is
+// returned after the results), if / else, early return; counting `for` loops and range loops (structurally recursive
+// functions that contain the rest of the function; a loop nested in a loop returns the variables it assigns), other
+// `for cond {}` loops bounded by a leading `gas : Nat` parameter (none when it runs out); calls to other translatable
+// functions (translated first).  A function that can panic returns `Option T`.  Statements are translated in
+// continuation-passing style: the code after an `if` is placed under both branches, so no join points appear in the
+// output.  Anything else is refused with an error - never guessed.
 
 import (
 	"fmt"
